@@ -27,8 +27,10 @@
          meaning (the implementation reads FILTER (x) as a call of a function
          named FILTER: recorded finding);
        - '?' directly after a call or a parenthesised expression is the error
-         operator unless a ternary can be read there: the next token is ':' or
-         an expression followed by ':' can be parsed after it ([tern_ahead]);
+         operator unless a ternary can be read there: outside a then-branch,
+         when the next token is ':' or an expression followed by ':' can be
+         parsed after it ([tern_ahead]); inside a then-branch (where a ':' is
+         expected anyway) when the next token cannot follow an operand;
        - RETURN DISTINCT: DISTINCT is the keyword when an expression can start
          after it.
    * Not supported (parse fails, [uses_unsupported] says why): USE heads and
@@ -245,22 +247,43 @@ Definition starts_expr (k : kind) (k2 : option kind) : bool :=
    expression parser [pe lv ts] (level, tokens), so that the only recursive
    function over expressions is [parse_at]. *)
 Section WithExpr.
-  Variable pe : nat -> toks -> res expr.
+  (* [pe tb lv ts]: parse an expression of level [lv]; [tb] = we are inside the
+     then-branch of a ternary (at the same bracket depth), where a ':' is
+     still expected *)
+  Variable pe : bool -> nat -> toks -> res expr.
 
   (* the ternary can be read after this '?' *)
   Definition tern_ahead (r : toks) : bool :=
     match r with
     | (KColon, _) :: _ => true
-    | _ => match pe 1%nat r with
+    | _ => match pe false 1%nat r with
            | Some (_, (KColon, _) :: _) => true
            | _ => false
            end
     end.
 
-  (* error operator after a call / a parenthesised expression *)
-  Definition postfix_q (e : expr) (ts : toks) : res expr :=
+  (* can this token follow a complete operand inside an expression? *)
+  Definition follows_operand (k : kind) : bool :=
+    match k with
+    | KOr | KAnd | KLike | KNot | KIn | KAll | KAny | KNone | KEq | KNeq | KLt | KLte | KGt | KGte
+    | KRegexMatch | KRegexNotMatch | KPlus | KMinus | KMulti | KDiv | KMod | KQuestion | KColon
+    | KRParen | KRBrack | KRBrace | KComma => true
+    | _ => false
+    end.
+
+  (* error operator after a call / a parenthesised expression.  Outside a
+     then-branch the '?' is the ternary's whenever a ternary can be read
+     ([tern_ahead]); inside a then-branch, where a ':' is expected anyway, it
+     is the error operator whenever the next token can follow an operand. *)
+  Definition postfix_q (tb : bool) (e : expr) (ts : toks) : res expr :=
     match ts with
-    | (KQuestion, _) :: r => if tern_ahead r then Some (e, ts) else Some (ESuppress e, r)
+    | (KQuestion, _) :: r =>
+        let tern := if tb then match r with
+                               | (k, _) :: _ => negb (follows_operand k)
+                               | [] => false
+                               end
+                    else tern_ahead r in
+        if tern then Some (e, ts) else Some (ESuppress e, r)
     | _ => Some (e, ts)
     end.
 
@@ -274,7 +297,7 @@ Section WithExpr.
         | (k, _) :: r =>
             if is_close k then Some ([], r)
             else
-              match pe 1%nat ts with
+              match pe false 1%nat ts with
               | Some (e, (k', _) :: r') =>
                   if is_close k' then Some ([e], r')
                   else match k' with
@@ -312,14 +335,14 @@ Section WithExpr.
         | (KDot, _) :: r =>
             bindr (prop_name r) (fun e r' => mapr (cons (Seg false e)) (parse_path f r'))
         | (KQuestion, _) :: (KDot, _) :: (KLBrack, _) :: r =>
-            match pe 1%nat r with
+            match pe false 1%nat r with
             | Some (e, (KRBrack, _) :: r') => mapr (cons (Seg true e)) (parse_path f r')
             | _ => None
             end
         | (KQuestion, _) :: (KDot, _) :: r =>
             bindr (prop_name r) (fun e r' => mapr (cons (Seg true e)) (parse_path f r'))
         | (KLBrack, _) :: r =>
-            match pe 1%nat r with
+            match pe false 1%nat r with
             | Some (e, (KRBrack, _) :: r') => mapr (cons (Seg false e)) (parse_path f r')
             | _ => None
             end
@@ -359,8 +382,8 @@ Section WithExpr.
     end.
 
   (* after functionCall: member path, error operator, or nothing *)
-  Definition after_call (fuel : nat) (c : expr) (ts : toks) : res expr :=
-    if starts_path ts then with_path fuel c ts else postfix_q c ts.
+  Definition after_call (tb : bool) (fuel : nat) (c : expr) (ts : toks) : res expr :=
+    if starts_path ts then with_path fuel c ts else postfix_q tb c ts.
 
   (* objectLiteral after '{' *)
   Fixpoint parse_props (fuel : nat) (ts : toks) : res (list prop) :=
@@ -376,18 +399,18 @@ Section WithExpr.
         match ts with
         | (KRBrace, _) :: r => Some ([], r)
         | (KLBrack, _) :: r =>
-            match pe 1%nat r with
+            match pe false 1%nat r with
             | Some (k, (KRBrack, _) :: (KColon, _) :: r') =>
-                bindr (pe 1%nat r') (fun v r'' => continue (PComputed k v) r'')
+                bindr (pe false 1%nat r') (fun v r'' => continue (PComputed k v) r'')
             | _ => None
             end
         | (KParam, _) :: (k, t) :: (KColon, _) :: r =>
-            if is_varname k then bindr (pe 1%nat r) (fun v r' => continue (PComputed (EParam t) v) r')
+            if is_varname k then bindr (pe false 1%nat r) (fun v r' => continue (PComputed (EParam t) v) r')
             else None
         | (KString, t) :: (KColon, _) :: r =>
-            bindr (pe 1%nat r) (fun v r' => continue (PNamed (str_inner t) v) r')
+            bindr (pe false 1%nat r) (fun v r' => continue (PNamed (str_inner t) v) r')
         | (k, t) :: (KColon, _) :: r =>
-            if is_word k then bindr (pe 1%nat r) (fun v r' => continue (PNamed t v) r') else None
+            if is_word k then bindr (pe false 1%nat r) (fun v r' => continue (PNamed t v) r') else None
         | (k, t) :: r => if is_varname k then continue (PShort t) r else None
         | [] => None
         end
@@ -432,16 +455,16 @@ Section WithExpr.
     match ts with
     | (KDistinct, _) :: (k, t) :: r =>
         let k2 := match r with (k2, _) :: _ => Some k2 | [] => None end in
-        if starts_expr k k2 then mapr (fun e => (true, e)) (pe 1%nat ((k, t) :: r))
-        else mapr (fun e => (false, e)) (pe 1%nat ts)
-    | _ => mapr (fun e => (false, e)) (pe 1%nat ts)
+        if starts_expr k k2 then mapr (fun e => (true, e)) (pe false 1%nat ((k, t) :: r))
+        else mapr (fun e => (false, e)) (pe false 1%nat ts)
+    | _ => mapr (fun e => (false, e)) (pe false 1%nat ts)
     end.
 
   (* LET name = expression, the LET token consumed *)
   Definition parse_let (ts : toks) : res (name * expr) :=
     match ts with
     | (k, t) :: (KAssign, _) :: r =>
-        if is_varname k || is_loopvar k then mapr (fun e => (t, e)) (pe 1%nat r) else None
+        if is_varname k || is_loopvar k then mapr (fun e => (t, e)) (pe false 1%nat r) else None
     | _ => None
     end.
 
@@ -450,7 +473,7 @@ Section WithExpr.
     match fuel with
     | O => None
     | S f =>
-        match pe 1%nat ts with
+        match pe false 1%nat ts with
         | Some (e, r) =>
             let '(d, r1) := match r with
                             | (KSortDir, t) :: r' => (bytes_eqb (upper_name t) (bs "DESC"), r')
@@ -471,7 +494,7 @@ Section WithExpr.
     | S f =>
         match ts with
         | (KIdent, x) :: (KAssign, _) :: r =>
-            match pe 1%nat r with
+            match pe false 1%nat r with
             | Some (e, (KComma, _) :: r') => mapr (cons (x, e)) (parse_groups f r')
             | Some (e, r') => Some ([(x, e)], r')
             | None => None
@@ -501,7 +524,7 @@ Section WithExpr.
     match ts with
     | (KWith, _) :: (KCount, _) :: (KInto, _) :: (KIdent, x) :: r => Some (CTCount x, r)
     | (KAggregate, _) :: r => mapr CTAggr (parse_aggrs fuel r)
-    | (KInto, _) :: (KIdent, x) :: (KAssign, _) :: r => mapr (fun e => CTInto x (Some e)) (pe 1%nat r)
+    | (KInto, _) :: (KIdent, x) :: (KAssign, _) :: r => mapr (fun e => CTInto x (Some e)) (pe false 1%nat r)
     | (KInto, _) :: (KIdent, x) :: (KKeep, _) :: (KIdent, _) :: r => Some (CTInto x None, r)
     | (KInto, _) :: (KIdent, x) :: r => Some (CTInto x None, r)
     | _ => Some (CTNone, ts)
@@ -551,12 +574,12 @@ Section WithExpr.
             else None
         | (kv, v) :: (KDo, _) :: (KWhile, _) :: r =>
             if is_loopvar kv then
-              bindr (pe 1%nat r) (fun c r' =>
+              bindr (pe false 1%nat r) (fun c r' =>
                 mapr (fun br => ForWhile v true c (fst br) (snd br)) (parse_clauses f r'))
             else None
         | (kv, v) :: (KWhile, _) :: r =>
             if is_loopvar kv then
-              bindr (pe 1%nat r) (fun c r' =>
+              bindr (pe false 1%nat r) (fun c r' =>
                 mapr (fun br => ForWhile v false c (fst br) (snd br)) (parse_clauses f r'))
             else None
         | _ => None
@@ -572,7 +595,7 @@ Section WithExpr.
         | (KReturn, _) :: r => mapr (fun de => ([], RReturn (fst de) (snd de))) (parse_return r)
         | (KFor, _) :: r => mapr (fun q => ([], RFor q)) (parse_for f r)
         | (KLet, _) :: r => bindr (parse_let r) (fun xe r' => more (CLet (fst xe) (snd xe)) r')
-        | (KFilter, _) :: r => bindr (pe 1%nat r) (fun e r' => more (CFilter e) r')
+        | (KFilter, _) :: r => bindr (pe false 1%nat r) (fun e r' => more (CFilter e) r')
         | (KSort, _) :: r => bindr (parse_sort fuel r) (fun ks r' => more (CSort ks) r')
         | (KLimit, _) :: r => bindr (parse_limit fuel r) more
         | (KCollect, _) :: r => bindr (parse_collect fuel r) more
@@ -582,8 +605,8 @@ Section WithExpr.
     end.
 
   (* expressionAtom without its left-recursive alternatives *)
-  Definition primary (fuel : nat) (ts : toks) : res expr :=
-    if is_call_start ts then bindr (parse_call fuel ts) (after_call fuel)
+  Definition primary (tb : bool) (fuel : nat) (ts : toks) : res expr :=
+    if is_call_start ts then bindr (parse_call fuel ts) (after_call tb fuel)
     else
       match ts with
       | (KInt, t) :: r =>
@@ -604,12 +627,12 @@ Section WithExpr.
       | (KLBrace, _) :: r => bindr (parse_props fuel r) (fun ps r' => with_path fuel (EObj ps) r')
       | (KLParen, _) :: (KFor, _) :: r =>
           match parse_for fuel r with
-          | Some (q, (KRParen, _) :: r') => postfix_q (ESub q) r'
+          | Some (q, (KRParen, _) :: r') => postfix_q tb (ESub q) r'
           | _ => None
           end
       | (KLParen, _) :: r =>
-          match pe 1%nat r with
-          | Some (e, (KRParen, _) :: r') => postfix_q e r'
+          match pe false 1%nat r with
+          | Some (e, (KRParen, _) :: r') => postfix_q tb e r'
           | _ => None
           end
       | (k, t) :: r => if is_varname k then after_name fuel (EVar t) r else None
@@ -617,27 +640,27 @@ Section WithExpr.
       end.
 
   (* left-associative operator loops *)
-  Fixpoint bin_loop (fuel : nat) (lv : nat) (a : expr) (ts : toks) : res expr :=
+  Fixpoint bin_loop (tb : bool) (fuel : nat) (lv : nat) (a : expr) (ts : toks) : res expr :=
     match fuel with
     | O => None
     | S f =>
         match binop lv ts with
-        | Some (mk, r) => bindr (pe (S lv) r) (fun b r' => bin_loop f lv (mk a b) r')
+        | Some (mk, r) => bindr (pe tb (S lv) r) (fun b r' => bin_loop tb f lv (mk a b) r')
         | None => Some (a, ts)
         end
     end.
 
-  Fixpoint tern_loop (fuel : nat) (c : expr) (ts : toks) : res expr :=
+  Fixpoint tern_loop (tb : bool) (fuel : nat) (c : expr) (ts : toks) : res expr :=
     match fuel with
     | O => None
     | S f =>
         match ts with
         | (KQuestion, _) :: (KColon, _) :: r =>
-            bindr (pe 2%nat r) (fun e r' => tern_loop f (ECond c None e) r')
+            bindr (pe tb 2%nat r) (fun e r' => tern_loop tb f (ECond c None e) r')
         | (KQuestion, _) :: r =>
-            match pe 1%nat r with
+            match pe true 1%nat r with
             | Some (t, (KColon, _) :: r') =>
-                bindr (pe 2%nat r') (fun e r'' => tern_loop f (ECond c (Some t) e) r'')
+                bindr (pe tb 2%nat r') (fun e r'' => tern_loop tb f (ECond c (Some t) e) r'')
             | _ => None
             end
         | _ => Some (c, ts)
@@ -681,32 +704,32 @@ Section WithExpr.
 End WithExpr.
 
 (* ------------------------------------------------- the expression levels *)
-Fixpoint parse_at (fuel : nat) (lv : nat) (ts : toks) {struct fuel} : res expr :=
+Fixpoint parse_at (fuel : nat) (tb : bool) (lv : nat) (ts : toks) {struct fuel} : res expr :=
   match fuel with
   | O => None
   | S f =>
       let pe := parse_at f in
       match lv with
-      | 1%nat => bindr (pe 2%nat ts) (tern_loop pe f)
+      | 1%nat => bindr (pe tb 2%nat ts) (tern_loop pe tb f)
       | 4%nat =>
           match ts with
           | (k, _) :: r =>
               match unop_of k with
-              | Some o => mapr (EUn o) (pe 4%nat r)
-              | None => pe 5%nat ts
+              | Some o => mapr (EUn o) (pe tb 4%nat r)
+              | None => pe tb 5%nat ts
               end
           | [] => None
           end
       | 0%nat | 2%nat | 3%nat | 5%nat | 6%nat | 7%nat | 8%nat | 9%nat | 10%nat | 11%nat =>
-          bindr (pe (S lv) ts) (bin_loop pe f lv)
-      | _ => primary pe f ts
+          bindr (pe tb (S lv) ts) (bin_loop pe tb f lv)
+      | _ => primary pe tb f ts
       end
   end.
 
 Definition fuel_for (ts : toks) : nat := (16 * List.length ts + 40)%nat.
 
 Definition parse_expr (ts : toks) : res expr :=
-  let f := fuel_for ts in parse_at f 1%nat ts.
+  let f := fuel_for ts in parse_at f false 1%nat ts.
 
 Definition parse_program (ts : toks) : option program :=
   let f := fuel_for ts in parse_body (parse_at f) f ts.
